@@ -25,7 +25,7 @@ META = {
               "np.nditer -> one chunk", "np.random.uniform -> symbolic draws", "NssGrid -> GridStub"],
     "assumptions": ["REAL mode", "10**x Ackermannised (strictly monotone, positive)", "table preconditions (rows non-decreasing from 0 to 1, axes strictly increasing) -- established for the shipped data by the per-row queries"],
 }
-LEDGER = {"quick": 330, "thorough": 600}
+LEDGER = {"quick": 1075, "thorough": 1075}
 EPS32 = Fr(1, 2**23)
 
 
@@ -54,8 +54,8 @@ def fixed_draws(values):
         NP.random.uniform = old
 
 
-def mk_cell(C, M, exact_last=False):
-    """2x2 cell of a CDF grid with symbolic axes and corner rows."""
+def mk_cell(C, M, exact_last=False, pre=""):
+    """2x2 cell of a CDF grid with symbolic axes and corner rows (pre: name prefix of the table entries)."""
     E = [z3.Real("E0"), z3.Real("E1")]
     B = [z3.Real("B0"), z3.Real("B1")]
     F = [z3.Real(f"frac{k}") for k in range(M)]
@@ -67,26 +67,26 @@ def mk_cell(C, M, exact_last=False):
     for i in range(2):
         for j in range(2):
             for k in range(M):
-                c = z3.Real(f"cdf{i}{j}_{k}")
+                c = z3.Real(f"{pre}cdf{i}{j}_{k}")
                 data[i, j, k] = SV(t=c)
                 if k:
-                    C.assume(z3.Real(f"cdf{i}{j}_{k-1}") <= c)
-            C.assume(z3.Real(f"cdf{i}{j}_0") == 0)
+                    C.assume(z3.Real(f"{pre}cdf{i}{j}_{k-1}") <= c)
+            C.assume(z3.Real(f"{pre}cdf{i}{j}_0") == 0)
             if exact_last:
-                C.assume(z3.Real(f"cdf{i}{j}_{M-1}") == 1)
+                C.assume(z3.Real(f"{pre}cdf{i}{j}_{M-1}") == 1)
             else:
-                C.assume(z3.Real(f"cdf{i}{j}_{M-1}") >= 1 - tol, z3.Real(f"cdf{i}{j}_{M-1}") <= 1 + tol)
+                C.assume(z3.Real(f"{pre}cdf{i}{j}_{M-1}") >= 1 - tol, z3.Real(f"{pre}cdf{i}{j}_{M-1}") <= 1 + tol)
     g = stubs.GridStub(SymArray(data), [SymArray([SV(t=e) for e in E]), SymArray([SV(t=b) for b in B]), SymArray([SV(t=f) for f in F])],
                        ["log_e_nu", "beta_rad", "e_tau_frac"])
     return g, E, B, F
 
 
-def _row_at(E, B, le, be, M):
+def _row_at(E, B, le, be, M, pre=""):
     """independent reference: bilinear blend of the four corner rows at (le, be)"""
     tx = (le - E[0]) / (E[1] - E[0])
     ty = (be - B[0]) / (B[1] - B[0])
-    return [(1 - tx) * (1 - ty) * z3.Real(f"cdf00_{k}") + (1 - tx) * ty * z3.Real(f"cdf01_{k}") + tx * (1 - ty) * z3.Real(f"cdf10_{k}") + tx * ty * z3.Real(f"cdf11_{k}")
-            for k in range(M)]
+    return [(1 - tx) * (1 - ty) * z3.Real(f"{pre}cdf00_{k}") + (1 - tx) * ty * z3.Real(f"{pre}cdf01_{k}") + tx * (1 - ty) * z3.Real(f"{pre}cdf10_{k}")
+            + tx * ty * z3.Real(f"{pre}cdf11_{k}") for k in range(M)]
 
 
 def sampler_run(M, n_events):
@@ -232,6 +232,46 @@ def wrapper_run(N, M=2):
     return run
 
 
+def isolation_run():
+    """Two Taus objects with DIFFERENT tables used one after the other in one process: each must sample
+    from its own table (no state shared between objects), and a second call on the first object too."""
+
+    def run(C):
+        _ins, cns, tns = _load()
+        M = 3  # with 2 nodes and exact end values every table gives the same row
+        g1, E, B, F = mk_cell(C, M, exact_last=True, pre="A")
+        g2, _E, _B, _F = mk_cell(C, M, exact_last=True, pre="B")
+        Taus = tns["Taus"]
+        T1, T2 = object.__new__(Taus), object.__new__(Taus)
+        T1.tau_cdf_grid, T2.tau_cdf_grid = g1, g2
+        le, be, u = z3.Real("logE"), z3.Real("beta"), z3.Real("u0")
+        C.assume(le >= E[0], le <= E[1], be >= B[0], be <= B[1])
+        for pre in ("A", "B"):
+            row = _row_at(E, B, le, be, M, pre)
+            C.assume(u > row[0], u < row[M - 1])
+        args = lambda: (SymArray([SV(t=be)]), SymArray([SV(t=le)]), SymArray([SV(t=u)]))  # noqa
+        e1 = T1.tau_energy(*args())
+        e2 = T2.tau_energy(*args())
+        e1b = T1.tau_energy(*args())
+        p10 = core.exp10(SV(t=le))
+        ref = {}
+        for pre, g in (("A", g1), ("B", g2)):
+            z = cns["grid_cdf_sampler"](g)(SymArray([SV(t=le)]), SymArray([SV(t=be)]), SymArray([SV(t=u)]))[0]
+            ref[pre] = (z * p10).term()
+        claims = {
+            "first object samples its own table": e1[0].term() == ref["A"],
+            "a second object with a different table samples ITS table (no state shared between objects)": e2[0].term() == ref["B"],
+            "the first object is unaffected by the use of the second": e1b[0].term() == ref["A"],
+        }
+        return harness.Out(claims=claims, inputs={"logE": le, "beta": be, "u0": u})
+
+    return run
+
+
+def job_isolation(tier):
+    return harness.run_job("Taus.tau_energy (two objects, different tables)", isolation_run(), timeout_ms=60000, second=(tier == "thorough"))
+
+
 def job_sampler(M, n_events, tier):
     return harness.run_job(f"grid_cdf_sampler(M={M},events={n_events})", sampler_run(M, n_events), timeout_ms=60000 if tier == "quick" else 600000,
                            second=(tier == "thorough"))
@@ -258,8 +298,8 @@ def jobs(tier, seed):
     out = [("s1", "job_sampler", {"M": M, "n_events": 1, "tier": tier}), ("s2", "job_sampler", {"M": M, "n_events": 2, "tier": tier}),
            ("s2small", "job_sampler", {"M": 2, "n_events": 2, "tier": tier}),
            ("ob", "job_outside", {"which": "below", "tier": tier}), ("oa", "job_outside", {"which": "above", "tier": tier}),
-           ("sh", "job_shapes", {"tier": tier}),
-           ("w1", "job_wrapper", {"N": 1, "tier": tier}), ("w", "job_wrapper", {"N": 2 if tier == "quick" else 3, "tier": tier})]
+           ("sh", "job_shapes", {"tier": tier}), ("iso", "job_isolation", {"tier": tier}),
+           ("w1", "job_wrapper", {"N": 1, "tier": tier}), ("w2", "job_wrapper", {"N": 2, "tier": tier}), ("w", "job_wrapper", {"N": 3, "tier": tier})]
     for v in ("1", "2", "3"):
         for part in range(4):
             out.append((f"cdf{v}.{part}", "job_cdf", {"version": v, "part": part, "nparts": 4}))
@@ -289,10 +329,19 @@ def replay(v):
     if job.startswith("Taus.tau_energy") and "(pattern " in ob:
         pat = ob.split("(pattern ")[1].split(")")[0]
         T = _real_taus()
+        bmin, bmax = float(T.tau_cdf_grid["beta_rad"][0]), float(T.tau_cdf_grid["beta_rad"][-1])
         bval = {"L": 0.0005, "V": 0.3, "H": 1.2}
         betas = np.array([bval[c] for c in pat])
+        # an event that the model puts exactly on a table edge is replayed exactly on the real table's edge
+        for i, c in enumerate(pat):
+            b, b0, b1 = m.get(f"beta{i}"), m.get("B0"), m.get("B1")
+            if c == "V" and b is not None and b0 is not None and abs(b - b0) <= 1e-12 * max(1.0, abs(b0)):
+                betas[i] = bmin
+            if c == "V" and b is not None and b1 is not None and abs(b - b1) <= 1e-12 * max(1.0, abs(b1)):
+                betas[i] = bmax
         les = np.full(len(pat), 8.3)
         us = np.linspace(0.35, 0.65, len(pat))
+        keep = (betas.copy(), les.copy(), us.copy())
         try:
             e = T.tau_energy(betas, les, us)
         except Exception as ex:
@@ -300,18 +349,42 @@ def replay(v):
                 return {"reproduced": True, "key": "tau_energy: explicit u with an out-of-table angle in the batch raises",
                         "detail": f"Taus.tau_energy(betas={betas.tolist()}, log_e_nu={les.tolist()}, u={us.tolist()}) raised {type(ex).__name__}: {ex}"}
             return {"reproduced": False, "key": None, "detail": f"raised {ex}"}
+        if not all(np.array_equal(a, b) for a, b in zip(keep, (betas, les, us))):
+            return {"reproduced": True, "key": "tau_energy modifies its input arrays", "detail": f"inputs {[k.tolist() for k in keep]} became {[betas.tolist(), les.tolist(), us.tolist()]}"}
         from nuspacesim.utils.cdf import grid_cdf_sampler
 
         s = grid_cdf_sampler(T.tau_cdf_grid)
-        bmin = T.tau_cdf_grid["beta_rad"][0]
         for i, c in enumerate(pat):
             if c == "H":
                 ref = np.finfo(np.float32).eps * 10 ** les[i]
             else:
-                ref = s(les[i:i + 1], np.array([bmin if c == "L" else betas[i]]), us[i:i + 1])[0] * 10 ** les[i]
+                ref = s(les[i:i + 1], np.array([bmin if c == "L" else keep[0][i]]), us[i:i + 1])[0] * 10 ** les[i]
             if abs(e[i] - ref) > 1e-9 * abs(ref):
-                return {"reproduced": True, "key": "tau_energy: wrapper value differs from the reference for pattern " + pat, "detail": f"event {i}: got {e[i]}, reference {ref}"}
+                return {"reproduced": True, "key": "tau_energy: wrapper value differs from the single-event reference",
+                        "detail": f"pattern {pat}, betas={keep[0].tolist()} (table range [{bmin}, {bmax}]): event {i} got {e[i]}, reference {ref}"}
         return {"reproduced": False, "key": None, "detail": "real code satisfies the predicate"}
+    if job.startswith("Taus.tau_energy (two objects"):
+        from nuspacesim.config import NssConfig
+        from nuspacesim.simulation.taus.taus import Taus
+        from nuspacesim.utils.cdf import grid_cdf_sampler
+
+        rng = np.random.default_rng(3)
+        n = 400
+        betas, les, us = rng.uniform(0.01, 0.7, n), rng.uniform(6.1, 11.9, n), rng.uniform(0.05, 0.95, n)
+        objs = []
+        for ver in ("3", "1", "3"):
+            cfg = NssConfig()
+            cfg.simulation.tau_shower.table_version = ver
+            objs.append((ver, Taus(cfg)))
+        for ver, T in objs:
+            got = T.tau_energy(betas.copy(), les.copy(), us.copy())
+            own = Taus(type(T.config)(**{"simulation": {"tau_shower": {"table_version": ver}}})) if False else T
+            ref = grid_cdf_sampler(T.tau_cdf_grid)(les, betas, us) * 10**les
+            nbad = int(np.sum(np.abs(got - ref) > 1e-9 * np.abs(ref)))
+            if nbad:
+                return {"reproduced": True, "key": "tau_energy: state shared between Taus objects (a later object samples another object's table)",
+                        "detail": f"objects created for table versions 3, 1, 3 and used in that order: version {ver} disagrees with its own table for {nbad} of {n} events"}
+        return {"reproduced": False, "key": None, "detail": "each real object samples its own table"}
     if job.startswith("grid_cdf_sampler(M="):
         M = int(job.split("M=")[1].split(",")[0])
         n = int(job.split("events=")[1].rstrip(")"))
